@@ -130,3 +130,36 @@ func manualWire(fr frame.Frame) []byte {
 	}
 	return nil
 }
+
+// refusedThenAccepted builds streams in which a frame the reader parses completely and then refuses
+// (a signed v2 frame with a wrong checksum, a v1 frame with a wrong checksum) is followed by valid
+// unsigned frames: nothing of the refused frame may show in the frames returned after it.
+func refusedThenAccepted(r *rand.Rand, d *dialect.Dialect, drw *dialect.ReadWriter, n int) [][]byte {
+	key := frame.NewV2Key([]byte("some sender's key"))
+	var out [][]byte
+	for i := 0; i < n; i++ {
+		msg := func() message.Message { return hx.RandMessage(r, d.Messages[r.Intn(len(d.Messages))], 2) }
+		signed, _ := writeFrame(drw, validFrame(r, drw, msg(), true, key))
+		unsigned, _ := writeFrame(drw, validFrame(r, drw, msg(), true, nil))
+		v1ok, _ := writeFrame(drw, validFrame(r, drw, msg(), false, nil))
+		v1bad, _ := writeFrame(drw, validFrame(r, drw, msg(), false, nil))
+		if signed == nil || unsigned == nil || v1ok == nil || v1bad == nil {
+			continue
+		}
+		signed[len(signed)-15] ^= 1 << uint(r.Intn(8)) // low byte of the checksum, before the 13-byte signature block
+		v1bad[len(v1bad)-1] ^= 0x10
+		var stream []byte
+		switch i % 3 {
+		case 0:
+			stream = append(append(append([]byte(nil), signed...), unsigned...), v1ok...)
+		case 1:
+			stream = append(append(append(append([]byte(nil), unsigned...), signed...), unsigned...), signed...)
+			stream = append(stream, unsigned...)
+		default:
+			stream = append(append(append(append([]byte(nil), v1bad...), v1ok...), signed...), v1ok...)
+			stream = append(stream, unsigned...)
+		}
+		out = append(out, stream)
+	}
+	return out
+}
